@@ -167,6 +167,13 @@ def generate(rng, tier):
                      'sys.r 0xFF05', 'sys.r 0xFF06', 'sys.r 0xFF07', 'sys.hw 3', 'sys.w 0xFF05 0x31', 'sys.r 0xFF05']
             cases.append(('tmr%d' % ntm, lines))
             ntm += 1
+    # FF46 reads back the last value written, also when written again while a transfer runs
+    for i in range(6 if quick else 60):
+        lines = ['sys.cpurom', 'sys.w 0xFF40 %d' % rng.choice([0x11, 0x91])]
+        for _ in range(5):
+            lines += ['sys.w 0xFF46 %d' % rng.choice([0xc0, 0xc1, 0x80, 0xdf, rng.randrange(0xf2)]), 'sys.r 0xFF46',
+                      'sys.hw %d' % rng.choice([0, 1, 2, 50, 159, 160, 161, 162, 163, 200]), 'sys.r 0xFF46']
+        cases.append(('dmareg%d' % i, lines))
     # LCDC read-back while the LCD stays off / stays on
     for i in range(8 if quick else 64):
         lines = ['sys.cpurom', 'sys.w 0xFF40 %d' % rng.choice([0x00, 0x11, 0x7f])]
